@@ -23,8 +23,7 @@
 -/
 import AHP.Model.Coll
 import AHP.Gen.Tables
-namespace AHP
-
+namespace AHP.G3
 structure Elem where
   uid : Nat
   tag : Str
@@ -368,4 +367,4 @@ def findL? : List Node → Nat → Option Node
     | none => findL? ts x
 end
 
-end AHP
+end AHP.G3
